@@ -79,3 +79,6 @@ OBLIGATIONS.append(Obl(name="Span.style_true_string", module="h_attrs", func="at
                        env={"VERIF_CLS": "odfdo.paragraph:Span", "VERIF_PARAM": "style"}, extra={"cls": "odfdo.paragraph:Span", "param": "style"},
                        replay="r_h_attrs:attr_true_string", expect="finding", finding="C12-true-false-strings", weight=3,
                        bounds="companion of known finding C12-true-false-strings", encodes=_ENC, stubs=_STUB))
+
+OBLIGATIONS.append(Obl(name="ListItem.text_content", module="h_attrs", func="text_content_arg", shadow=True, timeout=200, replay="r_h_attrs:text_content_arg", weight=15,
+                       bounds="ListItem(s), s of <= 3 characters over {a, space, LF}", encodes=["src/odfdo/element.py:Element.text_content (getter/setter)", "src/odfdo/list.py:ListItem.__init__"], stubs=_STUB))
